@@ -161,6 +161,68 @@ pub fn plan(prop: &str, tier: &str, seed: u64) -> Option<Plan> {
                 "writes past the end of the backing store are only visible to the ASan run (thorough) and as a crash of the flush-at-end child".into(),
             ];
         }
+        "C15" => {
+            p.eval_counter = "c15_cases";
+            p.min_eval = 10000;
+            p.min_distinct = 8;
+            p.rule = "case = (arena: flavour x layout x reserved x capacity 64..520 x fill state, data area above the cursor pre-filled with non-zero continuation bytes) x reader (get_u8/i8, 16 fixed-width be/le readers, 8 varint readers) x offset; every offset 0..=capacity+16 is enumerated, plus usize::MAX-k, isize::MAX+-k, u32::MAX+-k, 2^31+-k, 2^63-k for k<=16; oracle = reference decode of a private copy of memory() (own LEB128 decoder restricted to the bytes below allocated()); distinct_nontrivial = distinct (arena, fill state, flavour, sweep kind) combinations swept".into();
+            for (variant, n) in [("rel", if quick { 24 } else { 400 }), ("dbg", if quick { 8 } else { 100 })] {
+                for ext in [false, true] {
+                    let mut a = sv(&["readers", "--seed", &seed.to_string(), "--arenas", &n.to_string()]);
+                    if ext {
+                        a.push("--extreme".into());
+                    }
+                    let mut j = Job::new(&format!("readers-{}-{}", variant, if ext { "extreme" } else { "sweep" }), &bin(variant), a);
+                    j.timeout_s = 900;
+                    p.jobs.push(j);
+                }
+            }
+            if !quick && have("asan") {
+                for ext in [false, true] {
+                    let mut a = sv(&["readers", "--seed", &seed.to_string(), "--arenas", "60"]);
+                    if ext {
+                        a.push("--extreme".into());
+                    }
+                    let mut j = Job::new("readers-asan", &bin("asan"), a);
+                    j.env.push(("ASAN_OPTIONS".into(), "detect_leaks=0:halt_on_error=1:exitcode=67".into()));
+                    j.report_codes = vec![67];
+                    j.timeout_s = 900;
+                    p.jobs.push(j);
+                }
+            }
+            p.required_nonzero = sv(&["c15_values_checked", "c15_out_of_bounds_refusals", "c15_truncated_varints_refused", "c15_slice_length_checks"]);
+            p.extra_prefixes = vec!["c15_"];
+            p.assumptions = vec!["the reference LEB128 decoder (base-128, zig-zag for signed) is the harness' own".into(), "a reader that dies (signal) on an extreme offset is reported through the child's exit status".into()];
+        }
+        "C19" => {
+            p.eval_counter = "c19_cases";
+            p.min_eval = 500;
+            p.min_distinct = 100;
+            p.exhaustive = !quick;
+            p.rule = "case = (allocated length, reserved length in {0,1,7,8,9,31,32,63,64}, layout, flavour, Vec/anon backend) with random contents incl. the prefix; quick: page multiples +-2 (also shifted by reserved) and 200 random lengths; thorough: every allocated length 0..=3 pages+1; oracle: checksum(builder) == builder.checksum_one(allocated_memory()[reserved..]) for Crc32 and for a position-dependent streaming hash that also records the chunk lengths (sum must equal the reference length); distinct_nontrivial = distinct (length, reserved, layout, flavour)".into();
+            if quick {
+                let mut j = Job::new("cksum-rel", &bin("rel"), sv(&["cksum", "--seed", &seed.to_string()]));
+                j.timeout_s = 600;
+                p.jobs.push(j);
+                let mut j = Job::new("cksum-dbg", &bin("dbg"), sv(&["cksum", "--seed", &(seed + 1).to_string(), "--random", "50"]));
+                j.timeout_s = 600;
+                p.jobs.push(j);
+            } else {
+                for k in 0..12u64 {
+                    let lo = k * 1025;
+                    let hi = (lo + 1024).min(3 * 4096 + 1);
+                    let mut j = Job::new(&format!("cksum-rel-{}", k), &bin("rel"), sv(&["cksum", "--seed", &seed.to_string(), "--lens", "all", "--from", &lo.to_string(), "--to", &hi.to_string()]));
+                    j.timeout_s = 1800;
+                    p.jobs.push(j);
+                }
+                let mut j = Job::new("cksum-dbg", &bin("dbg"), sv(&["cksum", "--seed", &(seed + 1).to_string(), "--random", "400"]));
+                j.timeout_s = 1800;
+                p.jobs.push(j);
+            }
+            p.required_nonzero = sv(&["c19_multi_chunk_cases"]);
+            p.extra_prefixes = vec!["c19_"];
+            p.assumptions = vec!["page size 4096 (the only one on this machine)".into()];
+        }
         _ => return None,
     }
     Some(p)
